@@ -807,7 +807,7 @@ class BADS:
             self.options["specify_target_noise"]
             and self.options["uncertainty_handling"] is None
         ):
-            self.options["uncertainty_handling"] = False
+            self.options["uncertainty_handling"] = True
 
         if (
             self.options["specify_target_noise"]
